@@ -9,7 +9,7 @@ def _oct(v, width):
     return (("%0*o" % (width - 1, v)).encode() + b"\0")[:width]
 
 
-def header(name: str, size: int, *, typeflag=b"0", visor=False, offset=0, text_pgs=0, fixup_pgs=0, mode=0o644, mtime=0x5F5E1000,
+def header(name: str, size: int, *, typeflag=b"0", visor=False, offset=0, text_pgs=0, fixup_pgs=0, word500=0, mode=0o644, mtime=0x5F5E1000,
            prefix: str = "", uname="root", gname="root", linkname=""):
     nb = name.encode()
     assert len(nb) <= 100
@@ -38,6 +38,7 @@ def header(name: str, size: int, *, typeflag=b"0", visor=False, offset=0, text_p
     h[345:345 + len(pb)] = pb
     if visor:
         h[496:500] = struct.pack("<I", offset)
+        h[500:504] = struct.pack("<I", word500)     # a separate header word (text offset of executables), not part of the data offset
         h[504:512] = struct.pack("<II", text_pgs, fixup_pgs)
     chk = sum(h)
     h[148:156] = ("%06o" % chk).encode() + b"\0 "
@@ -79,7 +80,7 @@ def build(members, *, data_align=4096, data_gap=0, trailing_blocks=2, extra_tail
         hdr_len += len(ext_record(m))
         hdr_len += 512 + (-(-m["size"] // 512) * 512 if m["inline"] else 0)
     hdr_len += 512 * trailing_blocks
-    ext = sorted([m for m in members if not m["inline"]], key=lambda m: m["slot"])
+    ext = sorted([m for m in members if not m["inline"] and m.get("abs_offset") is None], key=lambda m: m["slot"])
     cur = -(-(hdr_len + data_gap) // data_align) * data_align
     offs = {}
     for m in ext:
@@ -89,8 +90,9 @@ def build(members, *, data_align=4096, data_gap=0, trailing_blocks=2, extra_tail
     for m in members:
         tf = b"5" if m["dir"] else m.get("typeflag", b"0")
         out += ext_record(m)
-        out += header(m["name"], m["size"], typeflag=tf, visor=m["visor"], offset=offs.get(id(m), 0), prefix=m.get("prefix", ""),
-                      mode=0o755 if m["dir"] else 0o644)
+        # abs_offset: the member's bytes are stored somewhere else in the archive already (e.g. inside an earlier member's data)
+        out += header(m["name"], m["size"], typeflag=tf, visor=m["visor"], offset=m["abs_offset"] if m.get("abs_offset") is not None else offs.get(id(m), 0),
+                      prefix=m.get("prefix", ""), mode=0o755 if m["dir"] else 0o644, **m.get("hdr", {}))
         if m["inline"] and m["size"]:
             out += m["data"] + bytes((-m["size"]) % 512)
     out += bytes(512 * trailing_blocks)
